@@ -18,7 +18,14 @@
      raw_drop_parent_of      parent in the reduced tree = grand-parent at the dropped position
      raw_drop_children       children in the reduced tree = grand-children at the dropped position
      raw_drop_ancestors      ancestors in the reduced tree = ancestors in t without level li
-     flatten_accepted / drop_cells_accepted / drop_leaf_level_accepted *)
+     flatten_accepted / drop_cells_accepted / drop_leaf_level_accepted
+     ancestor_at_self / _step / _chain / _in   the ancestor of a node at a given level (Model: ancestor_at)
+     raw_drop_ancestor_at    ancestor_at in the reduced tree = ancestor_at in t at the lifted positions
+     leaves_of_ancestor      In l (leaves_of t k x) <-> ancestor_at t (length t - 1) l k = Some x
+     drop_levels_preserve    any sequence of drops (drops_ok / up_levels): closure, leaf level, nodes, ancestors
+     from_labels_exact       get_taxonomy_tree: verdict and content in one statement
+   In Proofs/TreeBackfillP.v: backfill_spec, backfill_fills, backfill_reduced (backfill_assignments),
+     drop_levels_leaves / drop_level_leaves (leaf lists of a reduced tree). *)
 From Coq Require Import ZArith List Bool Lia Permutation.
 From CTM Require Import Base.Sx Base.ListX Base.SortX Model.Tree.
 From CTM Require Export Proofs.TreeValidateP Proofs.TreeLeavesP Proofs.TreeDropP Proofs.TreeLabelsP.
